@@ -440,3 +440,53 @@ def r_bary(idx, rep, rule="R-BARY"):
     rets = [s for s in iter_stmts(f.node.body) if isinstance(s, ast.Return)]
     ok = bool(rets) and isinstance(rets[-1].value, ast.Tuple) and len(rets[-1].value.elts) == 2
     rep.check(ok, rule, f.key + "|returns (a, b)", f.where, "calculate_closest_points must return (a, b)")
+
+
+
+def r_swaprows(idx, rep, rule="R-SWAPROWS"):
+    """mpr keeps three parallel arrays: row k of v is the Minkowski point v1[k] - v2[k] of the support points in rows k of v1 and v2.  A helper that only moves
+    rows (its parameters are the three arrays and integer row indices) must move row s of ALL THREE to the same row: decided by interpreting it over
+    labelled cells with numpy's view semantics (`tmp = v[i]` is a view of the row, `.copy()` a snapshot) for every pair of distinct row indices."""
+    import itertools
+    from ..core.concrete import Interp as _CI, NotModelled as _NM, Ref as _Ref
+    rep.rule(rule, "row-moving helpers of the portal keep v, v1, v2 parallel: after the call row k of each array holds the old row s(k) of the SAME array for one "
+                   "s(k) (interpretation over labelled cells, numpy view semantics, all pairs of distinct indices)", floor=1)
+    M_ = "distance3d.mpr"
+    m = idx.module(M_)
+    n = 0
+    for f in m.functions.values():
+        ps = f.params()
+        arrs = [p for p in ps if p in ("v", "v1", "v2")]
+        if len(arrs) != 3 or len(ps) < 4:
+            continue
+        others = [p for p in ps if p not in arrs]
+        # only helpers whose remaining parameters are row indices (they index one of the arrays)
+        idx_like = all(any(isinstance(nn, ast.Subscript) and isinstance(nn.value, ast.Name) and nn.value.id in arrs and p in {x.id for x in ast.walk(nn.slice) if isinstance(x, ast.Name)}
+                           for nn in ast.walk(f.node)) for p in others)
+        if not idx_like or len(others) > 3:
+            continue
+        n += 1
+        bad, unk = [], None
+        for sel in itertools.permutations(range(4), len(others)):
+            it = _CI(None, ndims={"v": 2, "v1": 2, "v2": 2})
+            args = [(_Ref(p) if p in arrs else sel[others.index(p)]) for p in ps]
+            try:
+                it.call_function(f.node, args)
+            except _NM as e:
+                unk = str(e)
+                break
+            for k in range(4):
+                src = [it.cells.load(a, (k,)) for a in arrs]
+                rows = {s[1] if isinstance(s, tuple) and len(s) == 2 else None for s in src}
+                names = [s[0] if isinstance(s, tuple) else None for s in src]
+                if names != arrs or len(rows) != 1 or None in rows:
+                    bad.append("%s(%s): row %d holds %s" % (f.name, ", ".join(map(str, sel)), k, ["%s[%s]" % (s[0], s[1]) if isinstance(s, tuple) and len(s) == 2 else str(s) for s in src]))
+        key = "%s|rows of v, v1, v2 stay parallel" % f.key
+        if unk:
+            rep.unknown(rule, key, f.where, "not interpretable: %s" % unk)
+        else:
+            rep.check(not bad, rule, key, f.where,
+                      "%s: the support points in v1 / v2 no longer belong to the Minkowski point in the same row of v (the contact position is interpolated from the "
+                      "wrong witnesses while depth and direction stay right)" % "; ".join(bad[:2]), "parallel for all index pairs")
+    if n == 0:
+        rep.unknown(rule, M_ + "|row-moving helpers", m.relpath, "no helper of (v, v1, v2, <row indices>) found")
